@@ -5,7 +5,8 @@
      pkg/eip712/abi_to_typed_data.go ABItoTypedDataV4, mapABIType, mapElementaryABIType,
                                      extractSolidityTypeName, addABITypes
      pkg/ethsigner/typed_data.go     SignTypedDataV4
-   as they stand after the repairs 8fa74c7 (nil payload), b9ca7d3 (nil member) and 3869019 (UseNumber).
+   as they stand after the repairs 8fa74c7 (nil payload), b9ca7d3 + d7c8b02 (nil member) and 3869019
+   (UseNumber).
    One definition per Go function, same order of checks.  Go values are the types of Eip712/Input.v;
    every nil dereference / type assertion / index / FillBytes that could panic is an explicit [Panic].
    External behaviour is a Section variable: the hash [H] (keccak256), the math/big oracle
@@ -135,7 +136,7 @@ Section WithHash.
               (fix loop (ms : gtype) : res bytes :=
                  match ms with
                  | [] => Ok []
-                 | None :: _ => Panic                                    (* tm.Type on a nil *TypeMember *)
+                 | None :: _ => Err ENullTypeMember                      (* if tm == nil (d7c8b02) *)
                  | Some tm :: r =>
                      do b <- enc (m_type tm) (glookup (m_name tm) vMap);
                      do rest <- loop r;
